@@ -455,3 +455,30 @@ def _binary_read(ex, args, ins, where):
     else:
         ex.store(v, bs, where, et)
     return NIL
+
+
+@intrinsic('github.com/aead/siphash.Sum64')
+def _siphash_sum64(ex, args, ins, where):
+    """SipHash-2-4 as an uninterpreted function of (message bytes, key bytes)"""
+    msg = ex.slice_elems(args[0])
+    key = ex.load(args[1], where, None)
+    bs = list(msg) + list(key)
+    if ex.pinned is not None or all(not is_sym(b) for b in bs):
+        raise Unsupported('concrete SipHash (no reference implementation in the engine)')
+    k = ('siphash', len(msg))
+    f = ex.uf_cache.get(k)
+    if f is None:
+        f = ex.uf_cache[k] = z3.Function('siphash24_%d' % len(msg), z3.BitVecSort(8 * len(bs)), z3.BitVecSort(64))
+    ex.cut_notes.add('hash-uf:siphash')
+    return f(bytes_to_bv(bs))
+
+
+@intrinsic('(*github.com/decred/dcrd/dcrec/secp256k1/v4.FieldVal).Set', '(*github.com/decred/dcrd/dcrec/secp256k1/v4.ModNScalar).Set')
+def _u256_set(ex, args, ins, where):
+    ex.store(args[0], ('u256', _u256_get(ex, args[1], where)), where, None)
+    return args[0]
+
+
+@intrinsic('(*github.com/decred/dcrd/dcrec/secp256k1/v4.FieldVal).Normalize')
+def _fv_normalize(ex, args, ins, where):
+    return args[0]
